@@ -9,6 +9,17 @@ Implementation side (real joblib from VERIF_REPO, /venv/bin/python, no numpy):
                 each the real `joblib.dump` is run and what is observed is the exception CLASS or the ACTUAL
                 bytes written: which CPython codec decodes them to the raw pickle, the level signature in the
                 codec header, the magic prefix; plus `_detect_compressor` on the bytes (peekable and not).
+ (c') targets : file objects opened BY THE CALLER (joblib's BinaryZlibFile/BinaryGzipFile, gzip.GzipFile, bz2.BZ2File,
+                lzma.LZMAFile, raw unbuffered files, a 16-byte io.BufferedWriter, a raw stream fed memoryviews) with
+                single bytes/str/bytearray leaves of 1 MiB +- 1, 2 MiB, 5 MiB handed to write() in ONE call.
+ (d) offsets  : open file objects with the cursor past 0: a header of k bytes then one dump (every codec), 2-3 dumps
+                back to back; read through buffered files, raw files, BytesIO and a peek-less wrapper. Oracle for
+                PEEKABLE (buffered) files: each load returns the object dumped at that position and (after an
+                uncompressed dump) leaves the cursor right after it. For file objects WITHOUT peek the code rewinds to
+                byte 0 by design (joblib's own tests do `f = BytesIO(); dump(obj, f); load(f)`): demanded there is the
+                dump that starts at offset 0 with the cursor at 0 or — uncompressed — at the end, and "dump; load
+                without rewinding" on the same object. `_detect_compressor`'s answer and cursor are compared with the
+                model's `sniff` at every position for every kind.
  (c) roundtrip: objects from the recursive generator harness/objs.py (scalars/containers/user classes, shared
                 and recursive references, sizes around 8 KiB / 64 KiB / 1 MiB, 1000-item batches) x protocols
                 0-5 x every available compressor x target kinds; the file is RENAMED to another extension
@@ -46,6 +57,12 @@ REQUIRED_THEOREMS = [
     "C03.tuple_ignores_filename",
     "C03.level_zero_rule",
     "C03.extension_implies_method",
+    "C03.sniff_keeps_cursor_partial",
+    "C03.sniff_short_peek_counterexample",
+    "C03.load_after_dump_at_offset_partial",
+    "C03.sniff_peekless_rewinds",
+    "C03.load_peekless_from_start",
+    "C03.load_peekless_without_rewinding",
 ]
 TRUSTED_EXTRA = [
     "parameters of C03.roundtrip (modelled, not verified; laws C03.Laws): CPython's pickle._Pickler/_Unpickler "
@@ -155,6 +172,8 @@ def target_token(kind, name):
         return "path:" + s_tok(name)
     if kind == "pathlib":
         return "pathlib:" + s_tok(name)
+    if kind in OPENED_TARGETS:
+        return "file"
     return {"file": "file", "bytesio": "bytesio", "other": "other"}[kind]
 
 
@@ -266,6 +285,14 @@ class Impl:
                 if ret is not None:
                     return ("ok-badreturn", repr(ret), None)
                 data = b.getvalue()
+            elif kind in OPENED_TARGETS:
+                # a file object opened BY THE CALLER: joblib's own compressor files, CPython's, raw / tiny-buffer files
+                path = self.fresh(name)
+                with open_target(kind, str(path)) as f:
+                    ret = j.dump(obj, f, compress=compress, protocol=protocol)
+                if ret is not None:
+                    return ("ok-badreturn", repr(ret), path)
+                data = path.read_bytes()
             else:
                 j.dump(obj, 5 if name == "int" else None, compress=compress, protocol=protocol)
                 return ("ok-noerror", b"", None)
@@ -282,7 +309,7 @@ class Impl:
         f = io.BufferedReader(io.BytesIO(data)) if peekable else io.BytesIO(data)
         return self.npu._detect_compressor(f)
 
-    def load_variants(self, data, path, load_ext):
+    def load_variants(self, data, path, load_ext, reopen_kind=None):
         """Load the bytes every way the property names: from a path renamed to another extension, from an open
         file object, from a BytesIO."""
         j = self.joblib
@@ -297,12 +324,65 @@ class Impl:
         with open(p, "rb") as f:
             out.append(("file", j.load(f)))
         out.append(("bytesio", j.load(io.BytesIO(data))))
+        if reopen_kind in ("jzlib", "jgzip", "gzipfile", "bz2file", "lzmafile"):
+            # through the caller's own (de)compressing file object, opened for reading
+            from joblib.compressor import BinaryGzipFile, BinaryZlibFile
+
+            cls = dict(jzlib=BinaryZlibFile, jgzip=BinaryGzipFile, gzipfile=gzip.GzipFile, bz2file=bz2.BZ2File,
+                       lzmafile=lzma.LZMAFile)[reopen_kind]
+            with cls(str(p), "rb") as f:
+                out.append(("same-class-reader", j.load(f)))
         try:
             os.unlink(p)
             os.rmdir(p.parent)
         except OSError:
             pass
         return out
+
+
+OPENED_TARGETS = ("jzlib", "jgzip", "gzipfile", "bz2file", "lzmafile", "rawfile", "tinybuf", "rawio-mv")
+
+
+class _RecordingRaw(io.RawIOBase):
+    """A raw stream under an io.BufferedWriter: its write() is called with memoryviews; everything goes to a file."""
+
+    def __init__(self, path):
+        super().__init__()
+        self._f = open(path, "wb", buffering=0)
+
+    def writable(self):
+        return True
+
+    def write(self, b):
+        assert isinstance(b, (memoryview, bytes, bytearray))
+        return self._f.write(b)
+
+    def close(self):
+        if not self.closed:
+            self._f.close()
+        super().close()
+
+
+def open_target(kind, path):
+    from joblib.compressor import BinaryGzipFile, BinaryZlibFile
+
+    if kind == "jzlib":
+        return BinaryZlibFile(path, "wb")
+    if kind == "jgzip":
+        return BinaryGzipFile(path, "wb")
+    if kind == "gzipfile":
+        return gzip.GzipFile(path, "wb")
+    if kind == "bz2file":
+        return bz2.BZ2File(path, "wb")
+    if kind == "lzmafile":
+        return lzma.LZMAFile(path, "wb")
+    if kind == "rawfile":
+        return open(path, "wb", buffering=0)
+    if kind == "tinybuf":
+        return io.BufferedWriter(io.FileIO(path, "wb"), buffer_size=16)
+    if kind == "rawio-mv":
+        return io.BufferedWriter(_RecordingRaw(path), buffer_size=64)
+    raise ValueError(kind)
 
 
 def det_str(name):
@@ -543,6 +623,8 @@ def make_object(gen):
         return objs.gen_object(rng, max_depth=gen.get("depth", 4))
     if cls == "batch":
         return objs.batch_object(rng)
+    if cls in objs.BIG_SIZES:
+        return objs.big_leaf_object(rng, cls)
     return objs.sized_object(rng, cls)
 
 
@@ -566,7 +648,7 @@ def roundtrip_case(res, impl, tables, case, drv_reqs, drv_pend):
     data, path = out[1], out[2]
     res.nontrivial.add((hash(repr(want)), proto, arg_token(compress), case["target"], case["name"]))
     try:
-        backs = impl.load_variants(data, path, case["load_ext"])
+        backs = impl.load_variants(data, path, case["load_ext"], case["target"])
     except Exception as e:  # noqa: BLE001
         res.fail("load-raises-after-dump:" + type(e).__name__, case, repr(e)[:300])
         return
@@ -628,6 +710,28 @@ def roundtrip_plan(ctx, tables, salt, scale):
         add("64k", 30_000 + i)
     for i in range(max(6, int(8 * scale))):
         add("1m", 40_000 + i)
+    # caller-opened file objects as targets (compress falsy: the file object does the work), small objects and single
+    # leaves of 1 MiB +- 1, 2 MiB, 5 MiB handed to write() in one call
+    big = [("1m+", 60_000), ("1m+", 60_001), ("2m", 60_002), ("5m", 60_003)]
+    k = 0
+    for kind in OPENED_TARGETS:
+        for proto in (0, 2, 3, 4, 5):
+            plan.append(dict(kind="roundtrip", gen=dict(salt=salt, idx=61_000 + k, cls="small", depth=3), proto=proto,
+                             compress=rng.choice([0, False]), target=kind, name="opened" + rng.choice(exts), load_ext=rng.choice(exts)))
+            k += 1
+        for cls, idx in big:
+            if kind in ("lzmafile", "bz2file") and cls == "5m" and scale < 2:
+                continue
+            for proto in ((0, 4, 5) if scale < 2 else (0, 1, 2, 3, 4, 5)):
+                if proto < 2 and cls == "5m":
+                    continue
+                plan.append(dict(kind="roundtrip", gen=dict(salt=salt, idx=idx + 10 * k, cls=cls), proto=proto,
+                                 compress=0, target=kind, name="big.bin", load_ext=rng.choice(exts)))
+                k += 1
+    for cls, idx in big:  # the same payloads through the ordinary targets and every codec
+        for c in [0] + [(n, 1) for n in avail]:
+            plan.append(dict(kind="roundtrip", gen=dict(salt=salt, idx=idx + 7000, cls=cls), proto=rng.choice([2, 4, 5]),
+                             compress=enc(c), target=rng.choice(tkinds), name="big" + rng.choice(exts), load_ext=rng.choice(exts)))
     # systematic sweep: one fixed mid-size object through EVERY compressor config x protocol x target kind
     for ci, c in enumerate(cfgs):
         for pi, p in enumerate([0, 1, 2, 3, 4, 5]):
@@ -646,6 +750,268 @@ def run_roundtrips(ctx, res, impl, tables, plan):
         res.traces_validated += 1
         if rep != impl_s:
             res.diverge("pickle-start-table" if what == "start" else "detect", case, impl_s, rep)
+
+
+# ----------------------------------------------------------------------------- open file objects, cursor past 0
+
+READ_KINDS = ("buffered", "raw", "bytesio", "nopeek")
+PEEKLESS = ("raw", "bytesio", "nopeek")
+
+
+class NoPeek:
+    """A seekable binary reader without `peek` around a real file."""
+
+    def __init__(self, f):
+        self._f = f
+
+    def read(self, n=-1):
+        return self._f.read(n)
+
+    def readline(self):
+        return self._f.readline()
+
+    def readinto(self, b):
+        return self._f.readinto(b)
+
+    def seek(self, *a):
+        return self._f.seek(*a)
+
+    def tell(self):
+        return self._f.tell()
+
+    def seekable(self):
+        return True
+
+    def close(self):
+        self._f.close()
+
+
+def open_reader(kind, path, data):
+    if kind == "buffered":
+        return open(path, "rb")
+    if kind == "raw":
+        return open(path, "rb", buffering=0)
+    if kind == "bytesio":
+        return io.BytesIO(data)
+    return NoPeek(open(path, "rb"))
+
+
+def offset_plan(ctx, tables, salt, scale):
+    rng = ctx.rng("offsets" + salt)
+    avail = [c["name"] for c in tables["compressors"] if c["available"]]
+    plan = []
+    idx = 0
+    # (1) an application header of k bytes, then ONE dump (every codec), written through one open file object
+    for k in [1, 2, 4, 5, 19, 8191, 8192, 70000]:
+        for c in [0] + [(n, rng.choice([1, 3, 9])) for n in avail]:
+            for wkind in (("file", "bytesio") if scale >= 2 or k in (5, 19) else (rng.choice(["file", "bytesio"]),)):
+                idx += 1
+                plan.append(dict(kind="offset", header=k, items=[dict(gen=dict(salt=salt, idx=70_000 + idx, cls="small", depth=3),
+                                                                      compress=enc(c), proto=rng.choice([0, 1, 2, 3, 4, 5, None]))],
+                                 writer=wkind))
+    # (2) 2-3 dumps back to back; all but the last uncompressed (a compressed stream is read ahead of its end: the
+    #     cursor is only demanded right after UNCOMPRESSED dumps), the last one with any codec
+    for _ in range(int(14 * scale)):
+        n = rng.choice([2, 3, 3])
+        items = []
+        for j in range(n):
+            idx += 1
+            last = j == n - 1
+            c = rng.choice([0] + [(m, 3) for m in avail]) if last else 0
+            items.append(dict(gen=dict(salt=salt, idx=70_000 + idx, cls=rng.choice(["small", "small", "8k"]), depth=3),
+                              compress=enc(c), proto=rng.choice([0, 2, 4, 5, None])))
+        plan.append(dict(kind="offset", header=rng.choice([0, 0, 7]), items=items, writer=rng.choice(["file", "bytesio"])))
+    # (3) one dump at offset 0 (every codec): peek-less readers with the cursor at 0 / at the end; buffered at 0
+    for c in [0, 0] + [(n, 3) for n in avail]:
+        idx += 1
+        plan.append(dict(kind="offset", header=0, items=[dict(gen=dict(salt=salt, idx=70_000 + idx, cls=rng.choice(["small", "8k"]), depth=3),
+                                                              compress=enc(c), proto=rng.choice([0, 2, 4, 5, None]))],
+                         writer=rng.choice(["file", "bytesio"])))
+    # (4) dump, then load from the SAME object without rewinding
+    for holder in ("bytesio", "rawfile"):
+        for proto in (0, 1, 2, 3, 4, 5, None):
+            idx += 1
+            plan.append(dict(kind="norewind", gen=dict(salt=salt, idx=70_000 + idx, cls=rng.choice(["small", "small", "8k"]), depth=3),
+                             proto=proto, holder=holder))
+    return plan
+
+
+def offset_case(res, impl, case, reqs, pend):
+    j = impl.joblib
+    header = bytes((37 * i + 11) % 251 for i in range(case["header"]))
+    objs_ = [make_object(it["gen"]) for it in case["items"]]
+    for o, it in zip(objs_, case["items"]):
+        p = it["proto"]
+        if not stdlib_roundtrips(o, 4 if p is None else p):
+            res.count("skipped-not-picklable-under-protocol")
+            return
+    # ---- write: header, then the dumps, through ONE open file object
+    path = impl.fresh("container.bin")
+    starts, ends = [], []
+    try:
+        f = open(path, "wb") if case["writer"] == "file" else io.BytesIO()
+        f.write(header)
+        for o, it in zip(objs_, case["items"]):
+            starts.append(f.tell())
+            j.dump(o, f, compress=dec(it["compress"]), protocol=it["proto"])
+            ends.append(f.tell())
+        data = f.getvalue() if case["writer"] == "bytesio" else None
+        f.close()
+        if data is None:
+            data = path.read_bytes()
+        else:
+            path.write_bytes(data)
+    except Exception as e:  # noqa: BLE001
+        res.fail("dump-at-offset-raises:" + type(e).__name__, case, repr(e)[:300])
+        return
+    wants = [objs.canon(o) for o in objs_]
+    maxlen = impl.tables["prefixesMaxLen"]
+    for rkind in READ_KINDS:
+        sub = dict(case, reader=rkind)
+        res.evaluations += 1
+        res.count("offset-reader=" + rkind)
+        res.count("offset-dumps=" + str(len(objs_)))
+        res.nontrivial.add(("offset", case["header"], repr(case["items"]), case["writer"], rkind))
+        if rkind in PEEKLESS:
+            peekless_reader_case(res, impl, sub, rkind, path, data, header, starts, wants, reqs, pend)
+            continue
+        f = open_reader(rkind, path, data)
+        try:
+            f.read(len(header))
+            for i, (want, it) in enumerate(zip(wants, case["items"])):
+                pos = f.tell()
+                if pos != starts[i]:
+                    break  # an earlier failure was already reported
+                # ---- sniffing alone: what it says and where it leaves the cursor. For a buffered reader `peeked` is
+                # what peek() returns in the state the reader is in (peek is idempotent: it refills only an empty buffer)
+                peeked = len(f.peek(1)) if rkind == "buffered" else 0
+                d = impl.npu._detect_compressor(f)
+                after = f.tell()
+                window = data[: pos + max(24, min(peeked, 64))]
+                if len(window) <= 20000:
+                    reqs.append(f"sniff {1 if rkind == 'buffered' else 0} {peeked} {pos} {window.hex() or '-'}")
+                    pend.append(("sniff", dict(sub, index=i), f"{det_str(d)} pos={after}"))
+                # stable classification of the input (what known_findings match on)
+                if peeked < maxlen and pos + peeked < len(data):
+                    sig = "load-at-offset:buffered-file:magic-number-straddles-the-read-buffer"
+                else:
+                    sig = "load-at-offset:buffered-file"
+                if after != pos:
+                    f.seek(pos)  # the load below is judged on its own
+                try:
+                    back = j.load(f)
+                except Exception as e:  # noqa: BLE001
+                    res.fail(sig, dict(sub, index=i), dict(outcome="load raises " + type(e).__name__, pos=pos, peeked=peeked))
+                    break
+                try:
+                    got = objs.canon(back)
+                except Exception as e:  # noqa: BLE001
+                    got = ("canon-failed", repr(e))
+                if got != want:
+                    res.fail(sig, dict(sub, index=i), dict(outcome="another object is returned", pos=pos, got=repr(got)[:160]))
+                    break
+                if dec(it["compress"]) in (0, False) and f.tell() != ends[i]:
+                    res.fail(sig + ":cursor-not-after-the-dump", dict(sub, index=i), dict(want=ends[i], got=f.tell()))
+                    break
+        finally:
+            f.close()
+    try:
+        os.unlink(path)
+        os.rmdir(path.parent)
+    except OSError:
+        pass
+
+
+def peekless_reader_case(res, impl, sub, rkind, path, data, header, starts, wants, reqs, pend):
+    """File objects WITHOUT peek() (io.BytesIO, raw unbuffered files, wrappers): `_detect_compressor` reads the magic
+    number at the cursor and rewinds the object to byte 0 — intended, and pinned by joblib's own
+    test_in_memory_persistence (`f = io.BytesIO(); dump(obj, f); load(f)`). So what is demanded here is what the code
+    promises: `load(f)` returns the dump that STARTS AT OFFSET 0 when the cursor is at 0, and — for an uncompressed
+    first dump — also when the cursor is at the END of the object ("dump; load without rewinding"). Loads of a dump
+    that starts at a non-zero offset are NOT demanded of these objects. The sniffing itself (answer, cursor
+    afterwards) is compared with the model at every position."""
+    j = impl.joblib
+    case = sub
+    first_uncompressed = dec(case["items"][0]["compress"]) in (0, False)
+    positions = sorted(set([0, len(data)] + starts + [len(header)]))
+    for pos in positions:
+        g = open_reader(rkind, path, data)
+        try:
+            g.seek(pos)
+            d = impl.npu._detect_compressor(g)
+            after = g.tell()
+        finally:
+            g.close()
+        window = data[: pos + 24]
+        if len(window) <= 20000:
+            reqs.append(f"sniff 0 0 {pos} {window.hex() or '-'}")
+            pend.append(("sniff", dict(sub, cursor=pos), f"{det_str(d)} pos={after}"))
+    if len(header) != 0:
+        res.count("peekless:dump-not-at-0:not-demanded")
+        return
+    demanded = [0] + ([len(data)] if first_uncompressed else [])
+    for pos in demanded:
+        f = open_reader(rkind, path, data)
+        sig = "load-peekless-file-object:dump-at-0:cursor-at-" + ("0" if pos == 0 else "end")
+        try:
+            f.seek(pos)
+            try:
+                back = j.load(f)
+            except Exception as e:  # noqa: BLE001
+                res.fail(sig, dict(sub, cursor=pos), dict(outcome="load raises " + type(e).__name__))
+                continue
+            try:
+                got = objs.canon(back)
+            except Exception as e:  # noqa: BLE001
+                got = ("canon-failed", repr(e))
+            if got != wants[0]:
+                res.fail(sig, dict(sub, cursor=pos), dict(outcome="another object is returned", got=repr(got)[:160]))
+            res.count("peekless:" + sig.rsplit(":", 1)[1])
+        finally:
+            f.close()
+
+
+def norewind_case(res, impl, case):
+    """`f = io.BytesIO(); dump(obj, f); load(f)` on the SAME object, without rewinding (joblib's own
+    test_in_memory_persistence), and the same with a raw unbuffered file opened 'w+b'."""
+    j = impl.joblib
+    obj = make_object(case["gen"])
+    if not stdlib_roundtrips(obj, 4 if case["proto"] is None else case["proto"]):
+        res.count("skipped-not-picklable-under-protocol")
+        return
+    res.evaluations += 1
+    res.count("norewind=" + case["holder"])
+    res.nontrivial.add(("norewind", repr(case["gen"]), case["proto"], case["holder"]))
+    want = objs.canon(obj)
+    path = impl.fresh("norewind.bin")
+    f = io.BytesIO() if case["holder"] == "bytesio" else open(path, "w+b", buffering=0)
+    try:
+        j.dump(obj, f, protocol=case["proto"])
+        back = j.load(f)
+        got = objs.canon(back)
+    except Exception as e:  # noqa: BLE001
+        res.fail("dump-then-load-without-rewinding:raises-" + type(e).__name__, case, repr(e)[:200])
+        return
+    finally:
+        f.close()
+    if got != want:
+        res.fail("dump-then-load-without-rewinding:differs", case, dict(got=repr(got)[:160]))
+
+
+def run_offsets(ctx, res, impl, tables, plan):
+    reqs, pend = [], []
+    for case in plan:
+        if case["kind"] == "norewind":
+            norewind_case(res, impl, case)
+        else:
+            offset_case(res, impl, case, reqs, pend)
+    replies = ctx.driver().run(reqs) if reqs else []
+    for (what, case, impl_s), rep in zip(pend, replies):
+        res.traces_validated += 1
+        if rep == "bad-op":
+            raise core.InfraError(f"driver rejected a sniff request for {case}")
+        if rep != impl_s:
+            res.diverge("sniff", case, impl_s, rep)
 
 
 # ----------------------------------------------------------------------------- tables
@@ -681,6 +1047,7 @@ def _explore(ctx, scale, salt):
     res.count("resolve-cases", n)
     run_detect_synthetic(ctx, res, impl, tables)
     run_roundtrips(ctx, res, impl, tables, roundtrip_plan(ctx, tables, salt, scale))
+    run_offsets(ctx, res, impl, tables, offset_plan(ctx, tables, salt, scale))
     res.assumptions = ["single writer per file; targets are regular files / BytesIO", "lz4 package absent"]
     return res
 
@@ -700,6 +1067,9 @@ def run(ctx):
         case = ctx.replay.get("case", {})
         if case.get("kind") == "roundtrip":
             run_roundtrips(ctx, res, impl, tables, [case])
+        elif case.get("kind") in ("offset", "norewind"):
+            case = {k: v for k, v in case.items() if k not in ("reader", "index", "cursor")}
+            run_offsets(ctx, res, impl, tables, [case])
         elif case.get("kind") == "resolve":
             run_resolve(ctx, res, impl, tables, [(dec(case["compress"]), case["target"], case["name"])])
         else:
